@@ -27,6 +27,7 @@ func init() {
 	reg.Register("c05.decode", "C05", decode)
 	reg.Register("c05.keys", "C05", keys)
 	reg.Register("c05.reuse", "C05", reuse)
+	reg.Register("c05.held", "C05", held)
 }
 
 // extCurve is the method set of the concrete curve type behind sm2ec.P256().
